@@ -306,6 +306,7 @@ def _check_own(run):
     # any callable loss is accepted by the constructors (they all go through validate_loss_function)
     from .c06 import depends_on
     depends_on(run, "C13", {"AGREE"}, only=lambda rule, inst: inst.startswith("dispatch"))
+    depends_on(run, "C14", {"WIRING", "RIVER"})     # every evaluation the explainer asks for reaches the model (no answer kept from an earlier call)
     n_loss = 0
     for cls in classes:
         defaults_resolution(run, prog, cls, "DEFAULTS", cls.name)
